@@ -65,7 +65,9 @@ def oracle(line, out):
     if dheld > len(boundary) + 5 + pad:
         return ("decoder held back %d bytes of part data after a chunk (bound %d = len(boundary) + 5 + padding %d)"
                 % (dheld, len(boundary) + 5 + pad, pad))
-    exp = M.ref_parse(body, boundary, charset)
+    exp = M.ref_parse_any_break(body, boundary, charset)
+    if exp is None and b'name="' not in body.replace(b'filename="', b""):
+        return _anonymous(a, body, boundary, charset, res)
     if exp is None:
         return None
     max_parts = int(a[3])
@@ -81,6 +83,26 @@ def oracle(line, out):
     if held > bound:
         return "decoder held back %d bytes after a chunk (bound %d = delimiter + constant + largest header block)" % (
             held, bound)
+    return None
+
+
+def _anonymous(a, body, boundary, charset, res):
+    """a form all of whose parts lack the `name` parameter: a part is a part (the limit counts parts, not keys) -
+    the reading is the one of the same form with names written in, judged for the 413 / no-413 decision only"""
+    named = body.replace(b"Content-Disposition: form-data; filename=", b'Content-Disposition: form-data; name="n"; filename=')
+    named = named.replace(b"Content-Disposition: form-data\r\n", b'Content-Disposition: form-data; name="n"\r\n')
+    exp = M.ref_parse(named, boundary, charset)
+    if exp is None:
+        return None
+    max_parts = int(a[3])
+    max_mem = None if a[4] == "none" else int(a[4])
+    over = len(exp["items"]) > max_parts or (max_mem is not None and exp["field_bytes"] > max_mem)
+    if over and res != "http 413":
+        return "limits exceeded by a form of nameless parts (parts %d/%d, field bytes %d/%s) but result is %s" % (
+            len(exp["items"]), max_parts, exp["field_bytes"], max_mem, res[:60])
+    if not over and not res.startswith("ok"):
+        return "form of nameless parts within limits (parts %d/%d, field bytes %d/%s) but result is %s" % (
+            len(exp["items"]), max_parts, exp["field_bytes"], max_mem, res[:80])
     return None
 
 
@@ -136,6 +158,40 @@ def cases(rng, tier):
         mm = rng.choice([None, fb, max(fb - 1, 0), 100])
         yield _stream(rng.choice(STREAMS), b, "utf8", 324, mm, chunks)
     yield from _adversarial(rng, tier)
+    # forms whose parts carry no `name` parameter (fields and files): they are parts all the same
+    for _ in range(40 if tier == "quick" else 800):
+        b = rng.choice([b"bd", b"X" * 12])
+        k = rng.randrange(1, 5)
+        parts = [M.Part("n", rng.choice([b"", b"v", b"value"]), rng.choice([None, None, "u.bin"]), []) for _ in range(k)]
+        body = M.encode_form(b, parts).replace(b'; name="n"', b"")
+        fb = sum(len(p.content) for p in parts if p.filename is None)
+        for mp in (max(k - 1, 0), k, k + 1):
+            mm = rng.choice([None, fb, max(fb - 1, 0), fb + 1])
+            yield _stream(rng.choice(STREAMS), b, "utf8", mp, mm, rng.choice([[body], M.rand_partition(rng, body)]))
+    # forms written with bare LF / bare CR line breaks (the decoder accepts them), contents without line breaks,
+    # with and without a break after the close-delimiter, empty first / last parts - limits around the totals
+    for _ in range(60 if tier == "quick" else 1500):
+        b = rng.choice([b"bd", b"X" * 12, b"a-b"])
+        k = rng.randrange(1, 5)
+        parts = []
+        for i in range(k):
+            content = rng.choice([b"", b"", b"v", b"value %d" % i, b"x" * 40])
+            if rng.random() < 0.3:
+                parts.append(M.Part("f%d" % i, content, "n%d.bin" % i, []))
+            else:
+                parts.append(M.Part("f%d" % i, content))
+        if rng.random() < 0.5:
+            parts[-1] = M.Part(parts[-1].name, b"", parts[-1].filename, [])
+        body = M.encode_form(b, parts)
+        br = rng.choice([b"\n", b"\r"])
+        body = body.replace(b"\r\n", br)
+        if rng.random() < 0.5:
+            body = body[:-1]            # ends right after the close-delimiter
+        fb = sum(len(p.content) for p in parts if p.filename is None)
+        for mp in (max(k - 1, 0), k, 324):
+            mm = rng.choice([None, fb, max(fb - 1, 0)])
+            chunks = rng.choice([[body], M.rand_partition(rng, body)])
+            yield _stream(rng.choice(STREAMS), b, "utf8", mp, mm, chunks)
 
 
 def _adversarial(rng, tier):
